@@ -29,13 +29,13 @@ VARIANT_INDEX = {("core::option::Option", "None"): 0, ("core::option::Option", "
 
 
 def api_of(path):
-    m = re.match(r"^griddle::(?:map|set)::(\w+)::<.*?>::(\w+)(?:::<.*>)?$", path)
+    m = re.match(r"^griddle::(?!external_trait_impls::)(?:\w+::)*?(\w+)::<.*?>::(\w+)(?:::<.*>)?$", path)
     if m:
         return "%s::%s" % (m.group(1), m.group(2))
-    m = re.match(r"^griddle::external_trait_impls::rayon::(?:map|set)::<impl (?:map|set)::(\w+)<.*>>::(\w+)$", path)
+    m = re.match(r"^griddle::external_trait_impls::rayon::(?:\w+::)*<impl (?:\w+::)*(\w+)<.*>>::(\w+)$", path)
     if m:
         return "%s::%s" % (m.group(1), m.group(2))
-    m = re.match(r"^griddle::<&'?\w* ?(?:map|set)::(\w+)<.*> as rayon::iter::IntoParallelIterator>::into_par_iter$", path)
+    m = re.match(r"^griddle::<&'?\w* ?(?:\w+::)*(\w+)<.*> as rayon::iter::IntoParallelIterator>::into_par_iter$", path)
     if m:
         return "%s::into_par_iter" % m.group(1)
     return None
